@@ -89,6 +89,7 @@ def mich(e):
 MICH = [
     {'prim': 'Unit'},
     {'int': '1'},
+    {'int': '-64'},
     {'prim': 'Pair', 'args': [{'int': '1'}, {'prim': 'Unit'}]},
     {'string': 'Ticket'},
     {'prim': 'string'},
